@@ -61,25 +61,37 @@ func (msgServer).monitorApprovalEvent
 // account store reads and writes
 func (ERC20Keeper).IsERC20Enabled
     trusted
-    pure
+    pure as erc20_isenabled
 func (ERC20Keeper).GetTokenPairID
     trusted
     params ek, ctx, token
     pure as erc20_pair_id
 // the denom index of the token-pair store is consistent: the id stored for a denom is the id of a pair with that denom
+// (a store read: found flag and pair are functions of the registry, named erc20_pair_found / erc20_pair_val for the c08s contracts)
+alias ERC20KeeperB github.com/haqq-network/haqq/x/bank/keeper.ERC20Keeper
+alias TokenPairB github.com/haqq-network/haqq/x/erc20/types.TokenPair
+uf erc20_pair_found(ek ERC20KeeperB, ctx github.com/cosmos/cosmos-sdk/types.Context, id []uint8) bool
+uf erc20_pair_val(ek ERC20KeeperB, ctx github.com/cosmos/cosmos-sdk/types.Context, id []uint8) TokenPairB
 func (ERC20Keeper).GetTokenPair
     trusted
     params ek, ctx, id
     ensures result.1 ==> (forall dn string :: id == erc20_pair_id(ek, ctx, dn) ==> result.0.Denom == dn)
+    ensures named: result.1 == erc20_pair_found(ek, ctx, id) && result.0 == erc20_pair_val(ek, ctx, id)
 func (AccountKeeper).HasAccount
     trusted
-    pure
+    params ak, ctx, addr
+    pure as acc_has
+    reads auth_accs
 func (AccountKeeper).NewAccountWithAddress
     trusted
-    pure
+    params ak, ctx, addr
+    pure as acc_new
+// SetAccount stores the account under its address: the account built for an address exists afterwards
 func (AccountKeeper).SetAccount
     trusted
+    params ak, ctx, acc
     modifies auth_accs
+    ensures stored: forall a Addr :: acc == acc_new(ak, ctx, a) ==> acc_has(ak, ctx, a)
 
 // C08: every coin that takes the ERC20 route goes through the guard above, with the sender and recipient of this very
 // send, one of the requested coins and the token pair registered for that coin's denom; the native rest goes through the
